@@ -4,7 +4,7 @@ import json, subprocess
 
 CLAIMS = {
  "C19": dict(
-  text="Static, exhaustive enumeration of the three plugin registries (static data) in all three GOOS configurations: every registry row resolves to a plugin whose Name() is the row key, names are unique, groups never shadow plugins and list only registered constructors, the capability filter is exactly plugin.ValidateRequirements on the element being admitted, ValidatePluginRequirements covers all three plugin kinds, every detector-required extractor resolves and has requirements implied by the detector's, ValidateRequirements consults all four capability fields and never orders the unordered OS/Network enums. Level 'other': necessary structural conditions decided for every row; the truth table of ValidateRequirements is not evaluated.",
+  text="Static, exhaustive enumeration of the three plugin registries (static data) in all three GOOS configurations: every registry row resolves to a plugin whose Name() is the row key, names are unique, groups never shadow plugins and list only registered constructors, the capability filter is exactly plugin.ValidateRequirements on the element being admitted, ValidatePluginRequirements covers all three plugin kinds, every detector-required extractor resolves and has requirements implied by the detector's, ValidateRequirements consults all four capability fields and never orders the unordered OS/Network enums. Also: the filters' converse (no other decision drops an element, no return before the loop) and EnableRequiredExtractors updating its enabled-name set with the very name it looked up. Level 'other': necessary structural conditions decided for every row; the truth table of ValidateRequirements is not evaluated.",
   note="Trusted: go/types+go/ssa; the symbolic reading of concat/vals (their bodies are checked to be maps.Copy union / slices.Concat(maps.Values)); literal Name()/Requirements()/RequiredExtractors() bodies (non-literal => undecided => failure); the OS/Network implication lattice used for D4 is a model of ValidateRequirements.",
   technique="table evaluation over AST+types, SSA constant evaluation, edge-dominance guard check",
   ref="DESIGN.md §3 C19"),
